@@ -142,7 +142,62 @@ def h_encode(kind):
                     f'{kind}: header does not round-trip')
     if len(back.payloads) == 1:
         ok &= eng.prove(back.payloads[0].type == t and same(back.payloads[0]), f'{kind}: payload content does not round-trip')
+    bad = dump_shows_everything(eng, back, kind)
+    if bad:
+        return {'class': ['encoded', kind], 'violation': bad}
     return ['encoded', kind, bool(ok)]
+
+
+LAST_DUMP = []
+
+
+def dump_shows_everything(eng, msg, kind):
+    """the structured dump that goes to the log (Message.to_dict): it names the payload and SHOWS every decoded field - every input variable that
+    is still free on this path (not fixed by a branch) occurs in the term of some value printed in the dump"""
+    import re
+    import z3
+    from symx import core
+    if isinstance(eng, core.ReplayEngine):
+        # native form of the oracle (see replay_file): the dump text is kept; two runs that differ in one field must give different text
+        try:
+            LAST_DUMP.append(repr(msg.to_dict()))
+        except Exception as ex:      # noqa
+            return f'{kind}: to_dict() raised {type(ex).__name__}: {ex}'
+        return None
+    try:
+        text = repr(msg.to_dict())
+    except Exception as ex:      # noqa
+        return f'{kind}: to_dict() raised {type(ex).__name__}: {ex}'
+    if msg.payloads and msg.payloads[0].type.name not in text:
+        return f'{kind}: the dump does not name the payload {msg.payloads[0].type.name}'
+    shown = {}
+    for tid in set(int(x) for x in re.findall('\u27e6(\\d+)\u27e7', text)):
+        term = core.TOKENS.get(tid)
+        if term is not None:
+            stack, seen = [term], set()
+            while stack:
+                x = stack.pop()
+                if x.get_id() in seen:
+                    continue
+                seen.add(x.get_id())
+                if z3.is_const(x) and x.decl().kind() == z3.Z3_OP_UNINTERPRETED:
+                    shown[x.decl().name()] = True
+                else:
+                    stack.extend(x.children())
+    missing = []
+    for name, t in eng.inputs.items():
+        if name in ('resp', 'hv', 'init', 'major', 'minor', 'exch', 'ntype', 'idtype', 'method', 'proto', 'pid', 'dh', 'num'):
+            continue        # rendered through enum names / booleans (decided by branches or by the enum model)
+        terms = t if isinstance(t, list) else [t]
+        for x in terms:
+            if z3.is_bv_value(x) or z3.is_true(x) or z3.is_false(x) or x.decl().name() in shown:
+                continue
+            if eng.unique_value(core._mk_int(x)) is not None:
+                continue    # fixed on this path: printed as a constant
+            missing.append(x.decl().name())
+    if missing:
+        return f'{kind}: the structured dump does not show the decoded field(s) {sorted(set(n.split("[")[0] for n in missing))[:6]}'
+    return None
 
 
 def _ref_chain(eng, d, n):
@@ -311,6 +366,29 @@ def _load_native():
 
 def replay_file(path):
     """concrete re-run of the same harness function (reference encoder / chain walker included) against the unshimmed modules"""
+    v = json.load(open(path))
+    if 'structured dump does not show' in v.get('label', ''):
+        # native form: flip every bit of the named field(s); if the dump text does not change, the field is not shown
+        import re
+        _load_native()
+        inst = [i for i in build_instances('thorough') if i.name == v['instance']][0]
+        fields = re.findall(r"'([A-Za-z0-9_.]+?)(?:!\d+)?'", v['label'].split('field(s)')[1])
+        del LAST_DUMP[:]
+        common.rerun_concrete(inst.fn, v['inputs'], inst.args)
+        base = LAST_DUMP[-1] if LAST_DUMP else None
+        for f in fields:
+            name = next((k for k in v['inputs'] if f == k or f.startswith(k)), None)
+            if name is None or base is None:
+                continue
+            alt = dict(v['inputs'])
+            val = alt[name]
+            alt[name] = ''.join('%02x' % (b ^ 0xFF) for b in bytes.fromhex(val)) if isinstance(val, str) else (val ^ 0xFF)
+            del LAST_DUMP[:]
+            common.rerun_concrete(inst.fn, alt, inst.args)
+            if LAST_DUMP and LAST_DUMP[-1] == base:
+                print(f'native: changing {name} does not change the dump')
+                return 1
+        return 0
     return common.generic_replay_file(path, lambda: build_instances('thorough') + build_instances('quick'), _load_native)
 
 
